@@ -151,7 +151,10 @@ def gen_spec(rng, nested_hex=None, version=None, template=None, force=None):
     version = version or rng.choice(versions)
     ed = force.get('edition') or rng.choice([2, 3, 3, 4, 4, 4])
     template = template or gen_template(rng, version)
-    b, d = bufrgen.load_tables(version)
+    if force.get('local'):
+        b, d = bufrgen.load_tables_local(version, *force['local'])
+    else:
+        b, d = bufrgen.load_tables(version)
     tree = bufrgen._expand(template, b, d)
     comp = force.get('compressed', rng.random() < 0.3)
     nsub = force.get('nsub') or rng.choice([1, 1, 1, 2, 2, 3, 4])
@@ -182,9 +185,15 @@ def gen_spec(rng, nested_hex=None, version=None, template=None, force=None):
         pads = {'1': rng.choice([0, 1, 2, 3]), '2': rng.choice([0, 1, 2]),
                 '3': rng.choice([0, 1]), '4': rng.choice([0, 1, 2, 4])}
     cat = rng.choice([c for c in range(0, 32) if c != 11] + [255, 101, 200])
-    return {'edition': ed, 'version': version, 'local_version': 0,
-            'centre': rng.choice([0, 7, 74, 98, 255]) if ed != 2 else rng.choice([0, 7, 98, 300]),
-            'subcentre': rng.choice([0, 0, 3, 255]) if ed == 3 else rng.choice([0, 0, 3, 1000]),
+    if force.get('local'):
+        centre, subcentre, lv = force['local']
+    else:
+        centre = rng.choice([0, 7, 74, 98, 255]) if ed != 2 else rng.choice([0, 7, 98, 300])
+        subcentre = rng.choice([0, 0, 3, 255]) if ed == 3 else rng.choice([0, 0, 3, 1000])
+        lv = 0
+    return {'edition': ed, 'version': version, 'local_version': lv,
+            'centre': centre,
+            'subcentre': subcentre,
             'category': cat, 'subcategory': rng.randint(0, 255), 'local_subcategory': rng.randint(0, 255),
             'update': rng.randint(0, 3),
             'date': [rng.randint(1990, 2030), rng.randint(1, 12), rng.randint(1, 28), rng.randint(0, 23),
@@ -230,6 +239,15 @@ def synthetic_messages(seed, n, collide=True):
     small = None
     twins = _collision_elements()
     for i in range(n):
+        if collide and i % 7 == 3:
+            # 'local twins': one descriptor list under the same WMO version with different local tables
+            # (centre 98: none, 1, 101), containing an id whose meaning depends on the local table
+            out.extend(_local_twins(rng, seed, i))
+            continue
+        if collide and i % 7 == 5:
+            # 'nest twins': identical top-level descriptor ids, different members inside a replication
+            out.extend(_nest_twins(rng, seed, i))
+            continue
         if collide and twins and i % 5 == 4:
             eid, va, vb = rng.choice(twins)
             ba, _ = bufrgen.load_tables(va)
@@ -251,6 +269,54 @@ def synthetic_messages(seed, n, collide=True):
         if small is None or (len(msg) < 120 and rng.random() < 0.3):
             small = msg.hex()
         out.append({'ref': 'synth:%d:%d' % (seed, i), 'hex': msg.hex(), 'src': 'synth', 'truth': truth})
+    return out
+
+
+LOCAL_SENSITIVE = {  # id -> local versions (centre 98) in which it is defined; 0 = WMO version 13 itself
+    7065: (0, 101), 8079: (0, 101), 10083: (0, 101), 10084: (0, 101), 15008: (0, 101), 15021: (0, 101),
+    1211: (1, 101), 2201: (1, 101)}
+
+
+def _local_twins(rng, seed, i):
+    out = []
+    eid = rng.choice(sorted(LOCAL_SENSITIVE))
+    lvs = list(LOCAL_SENSITIVE[eid])
+    if 0 in lvs and rng.random() < 0.7:
+        lvs.append(1)           # local table 1 does not mention the id: the WMO meaning applies
+    common = [e for e in _elements(13) if e // 1000 in (1, 2, 4, 5, 6, 12)]
+    tmpl = [['e', rng.choice(common)] for _ in range(rng.randint(0, 2))] + [['e', eid]] + \
+           [['e', rng.choice(common)] for _ in range(rng.randint(0, 2))]
+    if rng.random() < 0.3:
+        tmpl = [['f', 2, tmpl]]
+    ed = rng.choice([3, 4])
+    for lv in lvs:
+        b, _d = bufrgen.load_tables_local(13, 98, 0, lv)
+        if eid not in b or b[eid][4] > 64:
+            continue
+        spec = gen_spec(rng, version=13, template=tmpl, force={'edition': ed, 'local': (98, 0, lv)})
+        msg, truth = bufrgen.write_message(spec)
+        out.append({'ref': 'synth:%d:ltwin%d-l%d' % (seed, i, lv), 'hex': msg.hex(), 'src': 'synth',
+                    'truth': truth, 'twin': 'l%d:%d' % (seed, i)})
+    return out
+
+
+def _nest_twins(rng, seed, i):
+    out = []
+    version = rng.choice([v for v in bufrgen.table_versions() if v >= 13])
+    els = [e for e in _elements(version) if bufrgen.load_tables(version)[0][e][4] <= 32]
+    k = rng.randint(1, 2)
+    outer = [['e', rng.choice(els)] for _ in range(rng.randint(0, 2))]
+    ed = rng.choice([3, 4])
+    delayed = rng.random() < 0.5
+    n = rng.randint(1, 3)
+    for t in range(2):
+        inner = [['e', rng.choice(els)] for _ in range(k)]
+        rep = ['d', 31001, inner] if delayed else ['f', n, inner]
+        tmpl = outer[:1] + [rep] + outer[1:]
+        spec = gen_spec(rng, version=version, template=tmpl, force={'edition': ed, 'compressed': False})
+        msg, truth = bufrgen.write_message(spec)
+        out.append({'ref': 'synth:%d:ntwin%d-%d' % (seed, i, t), 'hex': msg.hex(), 'src': 'synth',
+                    'truth': truth, 'twin': 'n%d:%d' % (seed, i)})
     return out
 
 
